@@ -21,6 +21,8 @@ class Transc (α : Type) where
   ncdf : α → α
   /-- largest integer ≤ x, as a scalar -/
   floor : α → α
+  /-- `atan2 y x`: the argument of the complex number x + iy, in (−π, π] -/
+  atan2 : α → α → α
   pi : α
 
 /-- Exact decimal/rational constant extracted from the source (num / den). -/
@@ -116,6 +118,7 @@ instance : Transc Float where
   lgamma := FloatImpl.lgamma
   ncdf := FloatImpl.ncdf
   floor := Float.floor
+  atan2 := Float.atan2
   pi := FloatImpl.pi
 
 end Pysersic
